@@ -2,9 +2,9 @@ CONSTANTS NCells = 8
  Unit = 4
  MaxCtx = 2
  CellBytes = 256
- Tails = {0, 1, 17}
+ Tails = {0, 17}
  Subs = {0, 16}
- Engines = {"otfad", "bee", "iee"}
+ Engines = {"otfad", "iee"}
 SPECIFICATION Spec
 INVARIANT CellsPartition
 INVARIANT OwnerUnique
